@@ -89,8 +89,11 @@ static int on_node(struct aws_xml_node *node, void *ud) {
 }
 void h_xml_wellformed(void) {
     static const char shape[] = DOC;
+    uint8_t var[8];
+    for (size_t v = 0; v < 8; ++v) { var[v] = nd_u8(); ASSUME(var[v] == 'a' || var[v] == 'b'); } /* two-letter alphabet: names repeat, nest inside themselves and extend one another */
     for (size_t i = 0; i < DLEN; ++i) {
-        if (shape[i] == '?') { uint8_t c = nd_u8(); ASSUME((c >= 'a' && c <= 'c') || c == '1'); doc[i] = c; } /* small alphabet so that names collide */
+        if (shape[i] == '?') { uint8_t c = nd_u8(); ASSUME((c >= 'a' && c <= 'c') || c == '1'); doc[i] = c; } /* free text / value character */
+        else if (shape[i] >= 'A' && shape[i] <= 'H') doc[i] = var[shape[i] - 'A']; /* name variable: same letter = same symbolic character, so the tags stay matched */
         else doc[i] = (uint8_t)shape[i];
     }
     doc[DLEN] = 0;
